@@ -8,6 +8,9 @@ GROUPS = [  # (name, driver mode, spec Mode, maxBytes, maxRecords, sizes, depth 
     ("packed", "PackedForward", "ff", 60, 0, "11,14,20,33,50,61", 5, 6),
     ("packed-records-only", "PackedForward", "ff", 0, 2, "11,33", 6, 8),
     ("compressed", "CompressedPackedForward", "ff", 40, 3, "11,14,20,33,50", 5, 7),
+    # production-sized messages: the encoder's 1 MiB message buffer grows and is reused by the chunks after a large one
+    ("forward-large", "Forward", "ff", 3000000, 0, "20,70000,2400000", 4, 5),
+    ("packed-large", "PackedForward", "ff", 3000000, 0, "20,70000,2400000", 4, 5),
     ("datadog", "Datadog", "dd", 70, 3, "20,21,22,30,45,68,69,70", 4, 5),
     ("datadog-bytes-only", "Datadog", "dd", 100, 0, "47,48,49,50,20", 5, 6),
 ]
